@@ -45,8 +45,8 @@ impl<'a> Visitor for V<'a> {
         let fam = cx.fam();
         let d = describe_step(cx);
         if known_combined_state(fam, post) && !crate::engine::strict() && crate::engine::is_known(crate::props::c05::KNOWN_COMBINED_ED) {
+            // this state is the recorded finding; states reached afterwards are judged again
             self.st.known(crate::props::c05::KNOWN_COMBINED_ED);
-            self.stop = true;
             return Ok(());
         }
         self.st.evals(1);
@@ -72,7 +72,7 @@ impl<'a> Visitor for V<'a> {
             return Err(format!("{d}: NodeId::from(&enr) differs from node_id()"));
         }
         // uncompressed form agrees with the independent decompression
-        if scheme == Scheme::Secp && !matches!(fam, FamId::Tiny | FamId::Mid) {
+        if scheme == Scheme::Secp && !fam.is_toy() {
             let u = crypto::secp_uncompressed(&pk).unwrap();
             if post.pk_unc.as_ref().ok().map(|v| v.as_slice()) != Some(&u[..]) {
                 return Err(format!("{d}: encode_uncompressed() differs from the independent decompression"));
@@ -96,11 +96,13 @@ impl<'a> Visitor for V<'a> {
         self.seen.insert(pk.clone(), post.node_id);
         if let (Some(pre), Some(op)) = (cx.pre, cx.op) {
             let same_key = record_key(fam, &pre.pairs).map(|(_, p)| p) == Some(pk.clone());
-            if op.is_mutator() && same_key && pre.node_id != post.node_id {
+            // (a pre-state that is itself the recorded finding has a node id that is not its key's)
+            let pre_known = known_combined_state(fam, pre) && !crate::engine::strict() && crate::engine::is_known(crate::props::c05::KNOWN_COMBINED_ED);
+            if op.is_mutator() && same_key && !pre_known && pre.node_id != post.node_id {
                 return Err(format!("{d}: node id changed under an update made with the same key"));
             }
         }
-        if (!matches!(fam, FamId::Tiny | FamId::Mid) && edge_key(scheme, &pk)) || matches!(cx.h.init, Init::Decoded { .. }) {
+        if (!fam.is_toy() && edge_key(scheme, &pk)) || matches!(cx.h.init, Init::Decoded { .. }) {
             self.nontrivial = true;
         }
         Ok(())
@@ -112,7 +114,7 @@ impl Property for C10 {
         "C10"
     }
     fn rule(&self) -> String {
-        "cases: (a) call histories as for C05 with keys drawn from a pool containing edge scalars (1, 2, 3, n-1, n-2, (n-1)/2), keys mined for a leading-zero x or y coordinate, odd and even y, and random secrets, for all eight key families; (b) independently signed wire records decoded under all four key types; (c) every pool key x every family once. Oracle: node_id() == own keccak256 of the independently decompressed 64-byte x||y of the public key stored in the record's pairs (keccak256 of the 32 bytes for ed25519) == NodeId::from(public_key()) == NodeId::from(&record); unchanged by updates made with the same key; equal for records sharing a key, different for different keys. Non-trivial: a record whose key has a leading-zero coordinate or odd y, a decoded (not built) record, or a second record sharing a key. Distinct by hash of the case.".into()
+        "cases: (a) call histories as for C05 with keys drawn from a pool containing edge scalars (1, 2, 3, n-1, n-2, (n-1)/2), keys mined for a leading-zero x or y coordinate, odd and even y, and random secrets, for all eleven key families; (b) independently signed wire records decoded under all four key types; (c) every pool key x every family once. Oracle: node_id() == own keccak256 of the independently decompressed 64-byte x||y of the public key stored in the record's pairs (keccak256 of the 32 bytes for ed25519) == NodeId::from(public_key()) == NodeId::from(&record); unchanged by updates made with the same key; equal for records sharing a key, different for different keys. Non-trivial: a record whose key has a leading-zero coordinate or odd y, a decoded (not built) record, or a second record sharing a key. Distinct by hash of the case.".into()
     }
     fn assumptions(&self) -> Vec<String> {
         vec!["decompression by libsecp256k1 cross-checked with k256; keccak hand-written and self-checked".into()]
@@ -159,13 +161,18 @@ impl Property for C10 {
             let d = wire::gen_valid_draft(&mut c);
             Case::Wire(crate::cases::WireCase { bytes: wire::valid_bytes(&d), label: "valid".into(), has_custom: d.has_custom })
         });
-        Box::new(v.into_iter().chain(w))
+        let cross = history::cross_sequences(quick).into_iter().chain(history::depth1_rest(&[])).map(Case::Hist);
+        Box::new(v.into_iter().chain(cross).chain(w))
     }
     fn fuzz_plans(&self) -> Vec<(&'static str, u64)> {
         vec![("history", 10000)]
     }
     fn gen(&self, c: &mut Choices) -> Case {
-        Case::Hist(history::gen_history(c, None))
+        if c.chance(80) {
+            Case::Hist(history::gen_history_cross(c))
+        } else {
+            Case::Hist(history::gen_history(c, None))
+        }
     }
     fn check(&self, case: &Case, st: &mut Stats) -> Result<(), String> {
         match case {
